@@ -245,8 +245,14 @@ def kill_preempts(prog, ex, P, tier):
 def idle_handler(prog, ex, P, tier):
     """on_run scripts x message arrival"""
     scr = pick(ex, [[("true", 1), ("false", 0)], [("true", 1), ("true", 1), ("false", 0)], [("false", 0)], [("true", 1), ("err", 0)], [("false", 1)],
-                    [("true", 0), ("false", 0)]], "on_run-script")
+                    [("true", 0), ("false", 0)], "self-kill-then-err"], "on_run-script")
+    selfkill = scr == "self-kill-then-err"
+    if selfkill:
+        scr = [("err", 0)]
     sc = Script("A", on_run=scr)
+    if selfkill:
+        # the idle hook kills its own actor and then fails: the failure decides (on_stop(false), Failed)
+        sc.on_run_actions = [("kill", "A")]
     s = Sim(prog, ex)
     s.spawn_actor(sc, pick(ex, [1, 2], "cap"))
     s.client("c1", [("tell", "A", 1), ("yield",), ("tell", "A", 2), ("ask", "A", 3)], ["A"], keep_refs=True)
